@@ -364,6 +364,9 @@ def bound_numeric(ctx, quick):
     kinds = [
         ("two-sided", dict(a=-1.0, b=2.5)),
         ("two-sided", dict(a=0.0, b=1e-3)),
+        ("two-sided", dict(a=-2.0, b=0.0)),
+        ("lower", dict(a=0.0, b=None)),
+        ("upper", dict(a=None, b=0.0)),
         ("lower", dict(a=0.5, b=None)),
         ("upper", dict(a=None, b=-2.0)),
         ("none", dict(a=None, b=None)),
@@ -398,6 +401,13 @@ def bound_numeric(ctx, quick):
             an = bd.get_dydx(x)
             if abs(fd - an) > 1e-6 * max(1.0, abs(an)):
                 ctx.violation(key + ":slope", {"x": x, "dydx": an, "finite_difference": fd})
+                break
+        # the transformation maps every fit coordinate into the declared range
+        for x in np.linspace(-7.3, 7.3, n) if "func" not in kw else ():  # (a custom expression is the user's responsibility)
+            nchk += 1
+            y = bd.get_x2y(float(x))
+            if (kw["a"] is not None and y < kw["a"] - 1e-9 * max(1.0, abs(kw["a"]))) or (kw["b"] is not None and y > kw["b"] + 1e-9 * max(1.0, abs(kw["b"]))):
+                ctx.violation(key + ":range", {"x": float(x), "y": y, "bounds": [kw["a"], kw["b"]]})
                 break
         # clipping outside the range
         if kw["a"] is not None and kw.get("func") not in ("a+(b-a)/(1+exp(-x))", "a+exp(x)"):
